@@ -183,8 +183,10 @@ def aggregate_stats(results):
 def run_check(mod, tier, seed, argv=None):
     t0 = time.monotonic()
     prop = mod.PROPERTY
-    os.makedirs(os.path.join(VERIF_DIR, 'evidence'), exist_ok=True)
-    os.makedirs(os.path.join(VERIF_DIR, 'replays'), exist_ok=True)
+    ev_dir = os.environ.get('VERIF_EVIDENCE_DIR') or os.path.join(VERIF_DIR, 'evidence')
+    rp_dir = os.environ.get('VERIF_REPLAY_DIR') or os.path.join(VERIF_DIR, 'replays')
+    os.makedirs(ev_dir, exist_ok=True)
+    os.makedirs(rp_dir, exist_ok=True)
     cases = mod.gen_cases(tier, seed)
     inproc = getattr(mod, 'IN_PROCESS', False)
     if inproc:
@@ -216,7 +218,7 @@ def run_check(mod, tier, seed, argv=None):
                 continue
             n_viol += 1
             h = hashlib.sha1(json.dumps([prop, cases[i], viol.get('what')], sort_keys=True, default=repr).encode()).hexdigest()[:10]
-            path = os.path.join(VERIF_DIR, 'replays', f'{prop}-{h}.json')
+            path = os.path.join(rp_dir, f'{prop}-{h}.json')
             with open(path, 'w') as f:
                 json.dump({'property': prop, 'module': mod.__name__, 'case': cases[i], 'violation': jsonable(viol),
                            'result': jsonable(r), 'seed': seed, 'tier': tier}, f, indent=1, default=repr)
@@ -255,10 +257,10 @@ def run_check(mod, tier, seed, argv=None):
     extra = getattr(mod, 'evidence_extra', None)
     if extra:
         ev['coverage'].update(jsonable(extra(cases, results)))
-    tmp = os.path.join(VERIF_DIR, 'evidence', f'.{prop}.json.tmp')
+    tmp = os.path.join(ev_dir, f'.{prop}.json.tmp')
     with open(tmp, 'w') as f:
         json.dump(ev, f, indent=1, default=repr)
-    os.replace(tmp, os.path.join(VERIF_DIR, 'evidence', f'{prop}.json'))
+    os.replace(tmp, os.path.join(ev_dir, f'{prop}.json'))
     for kid, v in sorted(known_hits.items()):
         print(f'KNOWN-FINDING: property={prop} {kid}: {v["kf"]["what_fails"]} (seen {v["count"]}x; e.g. {v["example"][:160]})')
     print(f'{prop} tier={tier} seed={seed} cases={len(cases)} nontrivial={len(keys)} held={n_held} '
